@@ -22,7 +22,7 @@ MANIFEST = {
     'note': 'Relational oracle against single-target executions; trusts the block splitter (80-dash rule) and json.loads.',
     'technique': 'fault injection into multi-target runs with boundary monitoring (block structure, status rank) and a relational oracle against single-target executions',
 }
-FAILS = ['unresolvable', 'refused', 'silent', 'early-close', 'close-before-banner', 'garbage-banner', 'bad-block-size', 'bad-crc', 'truncated-kexinit', 'wrong-first-packet', 'probe-garbage']
+FAILS = ['unresolvable', 'refused', 'silent', 'early-close', 'close-before-banner', 'garbage-banner', 'bad-block-size', 'bad-crc', 'truncated-kexinit', 'wrong-first-packet', 'probe-garbage', 'probe-wrong-type', 'probe-malformed-reply']
 HEALTHY3 = ['clean', 'terrapin', 'rsa1024']
 RANK = {0: 0, 2: 1, 3: 2, 1: 3, 255: 4}
 _fail_status = {}
@@ -35,7 +35,7 @@ def cases(tier, seed):
         for pos in range(3):
             for th in ((1, 32) if tier == 'quick' else (1, 2, 3, 32)):
                 for fmt in ('text', 'json'):
-                    if tier == 'quick' and (pos + th + (fmt == 'json')) % 2 == (FAILS.index(f) % 2) and f not in ('bad-crc', 'bad-block-size'):
+                    if tier == 'quick' and (pos + th + (fmt == 'json')) % 2 == (FAILS.index(f) % 2) and f not in ('bad-crc', 'bad-block-size', 'probe-wrong-type', 'probe-malformed-reply'):
                         continue
                     hs = rng.sample(HEALTHY3, 2)
                     names = hs[:pos] + ['!' + f] + hs[pos:]
